@@ -226,6 +226,7 @@ func (rs *rowStore) memStoreSize() int {
 }
 
 func (rs *rowStore) insert(insert *insert) {
+	verifCountSent(rs.t)
 	rs.inserts <- insert
 }
 
@@ -294,6 +295,7 @@ func (rs *rowStore) processInserts(offsetsBySource common.OffsetsBySource, stop 
 				rs.t.updateHighWaterMarkMemory(insert.vals.TimeInt())
 			}
 			rs.mx.Unlock()
+			verifCountApplied(rs.t)
 		case <-flushTimer.C:
 			rs.t.log.Trace("Requesting flush due to flush interval")
 			flush(false)
